@@ -139,6 +139,20 @@ fn host_id_of_fd(fd: RawFd) -> Option<HostId> {
 }
 
 impl H {
+    /// inode operand: a register index, or `=N` for the literal number N
+    fn ireg(&self, tok: &str) -> u64 {
+        match tok.strip_prefix('=') {
+            Some(v) => v.parse().unwrap(),
+            None => self.reg(tok.parse().unwrap()),
+        }
+    }
+    /// handle operand: a handle register index, or `=N` for the literal handle N
+    fn htok(&self, tok: &str) -> u64 {
+        match tok.strip_prefix('=') {
+            Some(v) => v.parse().unwrap(),
+            None => self.hreg(tok.parse().unwrap()),
+        }
+    }
     fn reg(&self, k: usize) -> u64 {
         self.regs.get(k).copied().flatten().unwrap_or(0xdead_0000 + k as u64)
     }
@@ -492,8 +506,7 @@ fn main() {
             }
             "release" | "releasedir" => {
                 // release <r> <h> [flush] [flock] [flags<N>] [lock<N>]: every field of the request can be set
-                let (r, hr) = (us(1), us(2));
-                let (ino, hh) = (h.reg(r), h.hreg(hr));
+                let (ino, hh) = (h.ireg(&w[1]), h.htok(&w[2]));
                 let flush = w.iter().any(|x| x == "flush");
                 let flock = w.iter().any(|x| x == "flock");
                 let flags: u32 = w.iter().find_map(|x| x.strip_prefix("flags").and_then(|v| v.parse().ok())).unwrap_or(0);
@@ -506,28 +519,40 @@ fn main() {
                 body = format!("\"res\":{},\"ino\":{},\"h\":{},\"flush\":{}", res.err().map(|e| errno_of(&e)).unwrap_or(0), ino, hh, flush);
             }
             "use" => {
-                // use <r> <h> <kind>: a request that presents (inode, handle)
-                let (r, hr) = (us(1), us(2));
-                let (ino, hh) = (h.reg(r), h.hreg(hr));
+                // use <r> <h> <kind> [flags<N>] [nohandle] [valid<N>] [size<N>]: a request that presents (inode, handle);
+                // flags<N> = the flags word of READ / WRITE, nohandle = GETATTR / SETATTR without a handle,
+                // valid<N> / size<N> = the valid mask and the size of SETATTR
+                let (ino, hh) = (h.ireg(&w[1]), h.htok(&w[2]));
+                let num = |pre: &str| -> Option<u64> { w.iter().skip(4).find_map(|x| x.strip_prefix(pre).and_then(|v| v.parse().ok())) };
+                let rflags = num("flags");
+                let nohandle = w.iter().any(|x| x == "nohandle");
+                let oh = if nohandle { None } else { Some(hh) };
+                let valid = SetattrValid::from_bits_truncate(num("valid").unwrap_or(0) as u32);
+                let mut sattr: libc::stat64 = unsafe { std::mem::zeroed() };
+                sattr.st_size = num("size").unwrap_or(0) as i64;
                 let c = h.ctx.clone();
                 let res: std::io::Result<()> = match w[3].as_str() {
-                    "getattr" => h.fs.getattr(&c, ino, Some(hh)).map(|_| ()),
+                    "getattr" => h.fs.getattr(&c, ino, oh).map(|_| ()),
                     "fsync" => h.fs.fsync(&c, ino, w.iter().any(|x| x == "ds"), hh),
                     "fsyncdir" => h.fs.fsyncdir(&c, ino, w.iter().any(|x| x == "ds"), hh),
                     "flush" => h.fs.flush(&c, ino, hh, w.iter().find_map(|x| x.strip_prefix("lock").and_then(|v| v.parse().ok())).unwrap_or(0)),
                     "lseek" => h.fs.lseek(&c, ino, hh, 0, libc::SEEK_CUR as u32).map(|_| ()),
-                    "read" => h.fs.read(&c, ino, hh, &mut Buf(vec![]), 4, 0, None, libc::O_RDONLY as u32).map(|_| ()),
-                    "write" => h.fs.write(&c, ino, hh, &mut Buf(b"ab".to_vec()), 2, 0, None, false, libc::O_WRONLY as u32, 0).map(|_| ()),
+                    "read" => h.fs.read(&c, ino, hh, &mut Buf(vec![]), 4, 0, None, rflags.unwrap_or(libc::O_RDONLY as u64) as u32).map(|_| ()),
+                    "write" => h.fs.write(&c, ino, hh, &mut Buf(b"ab".to_vec()), 2, 0, None, false, rflags.unwrap_or(libc::O_WRONLY as u64) as u32, 0).map(|_| ()),
                     "fallocate" => h.fs.fallocate(&c, ino, hh, 0, 0, 4),
-                    "setattr" => h.fs.setattr(&c, ino, unsafe { std::mem::zeroed() }, Some(hh), SetattrValid::empty()).map(|_| ()),
+                    "setattr" => h.fs.setattr(&c, ino, sattr, oh, valid).map(|_| ()),
                     x => panic!("use {}", x),
                 };
-                body = format!("\"res\":{},\"ino\":{},\"h\":{},\"kind\":\"{}\"", res.err().map(|e| errno_of(&e)).unwrap_or(0), ino, hh, w[3]);
+                body = format!(
+                    "\"res\":{},\"ino\":{},\"h\":{},\"kind\":\"{}\",\"nohandle\":{},\"rflags\":{},\"valid\":{}",
+                    res.err().map(|e| errno_of(&e)).unwrap_or(0), ino, hh, w[3], nohandle, rflags.map(|x| x as i64).unwrap_or(-1), valid.bits()
+                );
             }
             "readdir" | "readdirplus" => {
                 // readdir[plus] <r> <h> <size> <0|last> <budget>
-                let (r, hr) = (us(1), us(2));
-                let (ino, hh) = (h.reg(r), h.hreg(hr));
+                let r = us(1);
+                let hr = if w[2].starts_with('=') { usize::MAX } else { us(2) };
+                let (ino, hh) = (h.reg(r), h.htok(&w[2]));
                 let size: u32 = w[3].parse().unwrap();
                 let off = if w[4] == "last" { h.lastoff.get(hr).copied().unwrap_or(0) } else { 0 };
                 let budget: usize = w[5].parse().unwrap();
